@@ -94,8 +94,24 @@ def harness(tier, seed):
     rng = random.Random(seed + 14)
     n_inst = 120 if tier == "quick" else 1500
     evals, distinct, viol, samples = 0, set(), [], []
-    for _ in range(n_inst):
-        inst = rand_instance(rng, max_items=rng.choice([3, 5, 8, 12]))
+    # hand-made geometries that random instances meet rarely: overhanging shelves, roofs, a rotated copy right after the plain
+    # one, interleaved bins, a forced rotation in a portrait bin, a nearly full portrait bin
+    from moptipyapps.binpacking2d.instance import Instance as _Inst
+    fixed = [(10, 10, [[3, 6, 1], [8, 2, 1], [2, 2, 1]], [1, 2, 3]),
+             (10, 10, [[5, 4, 1], [8, 8, 1], [2, 2, 2]], [1, 2, 3, 3]),
+             (10, 10, [[7, 10, 1], [8, 3, 2]], [1, 2, -2]),
+             (10, 10, [[3, 5, 1], [2, 1, 1], [5, 3, 1], [8, 2, 1], [2, 2, 1]], [1, 2, 3, 4, 5]),
+             (4, 10, [[4, 3, 2], [2, 2, 3], [1, 7, 1]], [1, 1, 2, 2, 2, 3]),
+             (4, 10, [[3, 3, 1], [6, 2, 1], [2, 3, 1]], [1, 2, 3]),
+             (10, 5, [[3, 8, 1], [4, 4, 2]], [1, 2, 2]),
+             (7, 5, [[7, 5, 2], [5, 7, 1]], [1, 1, 2])]
+    for k_inst in range(n_inst + len(fixed)):
+        if k_inst < len(fixed):
+            W_, H_, it_, x_fixed = fixed[k_inst]
+            inst = _Inst("t", W_, H_, it_)
+        else:
+            x_fixed = None
+            inst = rand_instance(rng, max_items=rng.choice([3, 5, 8, 12]))
         W, H = int(inst.bin_width), int(inst.bin_height)
         rows_i = [[int(v) for v in inst[k]] for k in range(inst.n_different_items)]
         from contracts.binpacking import REQUESTED
@@ -113,6 +129,8 @@ def harness(tier, seed):
             prev = None
             for rep in range(3):
                 x = rand_signed_perm(rng, inst) if rep != 2 else prev
+                if x_fixed is not None and rep == 0:
+                    x = np.array(x_fixed, dtype=x.dtype)
                 prev = x
                 y[:, :] = garbage(rng, y.shape, y.dtype)          # earlier contents must not matter
                 y.n_bins = -7
